@@ -92,6 +92,21 @@ def run(chk, replay=None):
                 and any(d["spin2"] >= 2 for n_, d in spec["particles"].items() if n_.startswith("R")):
             cases.append((("synth", spec), ["none"]))
             break
+    # Dalitz-plot decomposition on one topology whose spectator carries spin while the last particle does not (and the other way
+    # round): every final-state particle is rotated with its OWN spin
+    for want in ((1, 0), (0, 1)):
+        tries = 0
+        while tries < 5000:
+            tries += 1
+            spec = U.synth_spec(rng, nfs=3, formalism="helicity", helset="full", maxspin2=2, ntop=1)
+            if spec is None or len(spec["transitions"]) > 40:
+                continue
+            P = spec["particles"]
+            tree = [tuple(s_) for s_ in spec["meta"]["tree"]]
+            if (0, 2) in tree and (P["f1"]["spin2"] > 0, P["f2"]["spin2"] > 0) == (bool(want[0]), bool(want[1])) \
+                    and all(P[f"f{i}"]["mass"] > 0 for i in range(3)) and any(d["spin2"] >= 2 for n_, d in P.items() if n_.startswith("R")):
+                cases.append((("synth", spec), ["dpd1"] if tier == "quick" else ["dpd1", "dpd2", "dpd3"]))
+                break
     jobs, meta = [], []
     for spec, als in cases:
         reaction = observe.load(spec)
